@@ -527,7 +527,7 @@ def _run_cfg(ctx, cfg):
         ctx.disagree(case0, ref["res"], dict(iterations=n, n_samples=nsamp), "uninterrupted run: iterations / samples")
     if proto is None:
         kills = [[dict(at=k, when="before")] for k in range(len(ref["ops"]) + 1)]
-        kills += [[dict(at=k, when="partial", frac=[1, 2])] for k, ev in enumerate(ref["ops"]) if ev["op"] == "write"]
+        kills += [[dict(at=k, when="partial", frac=[1, 2])] for k, ev in enumerate(ref["ops"]) if ev["op"] == "flush"]
         outs = _session_chunks(ctx, cfg, [dict(sid=i, kills=k) for i, k in enumerate(kills)], ctx.n(3, 6))
         _report_failures(ctx, cfg, {k: v for o in outs for k, v in o["scen"].items()}, ref, set())
         return
@@ -710,7 +710,7 @@ def search(ctx):
             return
         _SESS[json.dumps(cfg, sort_keys=True)] = o
         ops = o["ref"]["ops"]
-        hits = [k for k, ev in enumerate(ops) if ev["op"] in ("write", "openw", "replace") and (
+        hits = [k for k, ev in enumerate(ops) if ev["op"] in ("flush", "openw", "replace") and (
             "last_finished_iteration" in ev["path"] or "energy_history" in ev["path"] or "minisanity_history" in ev["path"]
             or "latest." in ev["path"])]
         for k in hits[len(hits) // 3:]:
